@@ -605,9 +605,68 @@ func ruleVerbCaseInsensitive(c *Ctx) {
 		}
 		return false
 	}
-	folded := func(v ssa.Value) bool {
+	var folded func(v ssa.Value) bool
+	folded = func(v ssa.Value) bool {
 		d := describe(v)
-		return strings.HasPrefix(d, "strings.ToUpper(") || strings.HasPrefix(d, "strings.ToLower(")
+		if strings.HasPrefix(d, "strings.ToUpper(") || strings.HasPrefix(d, "strings.ToLower(") {
+			return true
+		}
+		// a parameter that every caller fills with a folded value: the dispatcher's verb comes from parseCmd, whose
+		// first result is a constant or strings.ToUpper(...) on every accepting return
+		if p, isP := v.(*ssa.Parameter); isP {
+			idx := -1
+			for i, q := range p.Parent().Params {
+				if q == p {
+					idx = i
+				}
+			}
+			callers := c.callersOf(p.Parent())
+			if idx < 0 || len(callers) == 0 {
+				return false
+			}
+			for _, cs := range callers {
+				cc := callCommon(cs)
+				if cc == nil || idx >= len(cc.Args) {
+					return false
+				}
+				ex, isEx := stripConv(cc.Args[idx]).(*ssa.Extract)
+				if !isEx {
+					return false
+				}
+				call, isCall := ex.Tuple.(*ssa.Call)
+				if !isCall {
+					return false
+				}
+				g := staticCallee(&call.Call)
+				if g == nil || !inSmtp(g) {
+					return false
+				}
+				okAll := true
+				allInstrs(g, func(in ssa.Instruction) {
+					r, isR := in.(*ssa.Return)
+					if !isR || in.Block() == g.Recover {
+						return
+					}
+					rv := returnedValues(r)
+					if ex.Index >= len(rv) {
+						okAll = false
+						return
+					}
+					if _, isK := constString(rv[ex.Index]); isK {
+						return
+					}
+					rd := describe(rv[ex.Index])
+					if !(strings.HasPrefix(rd, "strings.ToUpper(") || strings.HasPrefix(rd, "strings.ToLower(")) {
+						okAll = false
+					}
+				})
+				if !okAll {
+					return false
+				}
+			}
+			return true
+		}
+		return false
 	}
 	n := 0
 	for _, fn := range []string{"parseCmd", "(*Conn).handle"} {
